@@ -185,6 +185,10 @@ func (it *IndexIterator) Seek(key []byte) {
 	if it.heap == nil || !it.Valid() {
 		return
 	}
+	// 迭代器不会后退: 已迭代完毕的分片不再参与定位, 目标位于当前位置之前时若仍移动其余分片, 结果将取决于分片数量
+	if cmp := bytes.Compare(key, it.Key()); cmp == 0 || cmp < 0 != it.heap.reverse {
+		return
+	}
 
 	oldItems := it.heap.items
 	it.heap.items = nil
